@@ -311,7 +311,7 @@ def emit_test(mod, path):
             "    mod = importlib.import_module(%r)\n"
             "    body = json.load(open(%r))\n"
             "    vs = [v for v in mod.replay(body['case']) if v['oracle'] == body['oracle']]\n"
-            "    assert not vs, vs[0]\n" % (ROOT, mod.__name__, path))
+            "    assert not vs, vs[0]\n" % (ROOT, mod.__name__, os.path.abspath(path)))
     print("wrote", out)
 
 
